@@ -281,7 +281,8 @@ def run(chk):
         "exhaustive": True, "exhaustive_what": "ordered same-dimension unit pairs of the table (%d incl. identical pairs)" % len(pairs),
         "unit_pairs": len(pairs), "dimensions": len(qtylib.dim_groups(tbl)),
         "case_kinds": dict(kinds), "model_evaluations": len(items), "model_mismatches": len(mism),
-        "oracle_failures": len(failing), "relative_tolerance": REL,
+        "oracle_failures": len(failing), "oracle_failure_kinds": dict(collections.Counter(cases[n]["kind"] for n, _ in failing)),
+        "relative_tolerance": REL,
         "outcomes": dict(collections.Counter(o.kind for o in obs)),
         "samples": [{"kind": cases[i]["kind"], "line": cases[i]["line"], "implementation": obs[i].raw}
                     for i in (0, len(cases) // 3, len(cases) - 1)],
